@@ -7,7 +7,7 @@ For every feasible point of the LP the code builds (human-maximising rounds), ev
 inputs with non-zero monthly requirement.
 -/
 namespace Allfed.C04
-open Allfed.LP Allfed.AllocLP Allfed.Report
+open Allfed.LP Allfed.AllocLP Allfed.Report Allfed.PhysSpec
 
 variable {K : Type} [Field K] [LinearOrder K] [IsStrictOrderedRing K]
 
@@ -65,5 +65,49 @@ theorem split_adds_up (produced eaten : K) : (splitCrops produced eaten).1 + (sp
 
 example : splitCrops (3 : ℚ) 5 = (3, 2) ∧ splitCrops (7 : ℚ) 5 = (5, 0) ∧ splitCrops (-1 : ℚ) 5 = (-1, 6) := by
   decide +kernel
+
+/-! ## feed and biofuel drawn from each resource (`<resource>_feed`, `<resource>_biofuels`)
+
+`Report.nonhumanMonth i x m` is what the driver answers to `report.nonhuman` and what the check
+compares the interpreter's ten series with: per month, feed drawn from stored food, outdoor crops,
+seaweed (times its energy content), cellulosic sugar, SCP, then biofuel in the same order, each in
+percent of the monthly need (`alloc · ratio / billionKcalsNeeded · 100`), 0 for a resource that is
+switched off. -/
+
+/-- human-maximising rounds: the five feed entries add up to the feed charge, the five biofuel
+    entries to the biofuel charge (percent of need); no hypothesis on `billionKcalsNeeded` needed -/
+theorem nonhuman_sum_eq_charge (i : Inp K) (x : Var → K) (h : Feasible (buildLP i .toHumans) x)
+    (hany : anyFeedVar i = true) (m : Nat) (hm : m < i.nmonths) :
+    ((nonhumanMonth i x m).take 5).sum = at' i.feed m / i.billionKcalsNeeded * 100 ∧
+    ((nonhumanMonth i x m).drop 5).sum = at' i.biofuel m / i.billionKcalsNeeded * 100 :=
+  Proofs.Report.nonhuman_sum_eq_charge i x h hany m hm
+
+/-- feed-maximising round: the sums stay within the ceilings -/
+theorem nonhuman_sum_le_ceiling (i : Inp K) (x : Var → K) (h : Feasible (buildLP i .toAnimals) x)
+    (hany : anyFeedVar i = true) (hb : 0 ≤ i.billionKcalsNeeded) (m : Nat) (hm : m < i.nmonths) :
+    ((nonhumanMonth i x m).take 5).sum ≤ at' i.maxFeed m / i.billionKcalsNeeded * 100 ∧
+    ((nonhumanMonth i x m).drop 5).sum ≤ at' i.maxBiofuel m / i.billionKcalsNeeded * 100 :=
+  Proofs.Report.nonhuman_sum_le_ceiling i x h hany hb m hm
+
+/-- every reported entry is non-negative -/
+theorem nonhuman_nonneg (i : Inp K) (x : Var → K) (hx : ∀ v, 0 ≤ x v)
+    (hb : 0 ≤ i.billionKcalsNeeded) (hkc : 0 ≤ i.seaweedKcals) (m : Nat) :
+    ∀ e ∈ nonhumanMonth i x m, 0 ≤ e :=
+  Proofs.Report.nonhuman_nonneg i x hx hb hkc m
+
+/-- the entries are the LP's totals: the feed entries sum to `feedTotal`, the biofuel entries to
+    `biofuelTotal`, whatever the point -/
+theorem nonhuman_sums_are_totals (i : Inp K) (x : Var → K) (m : Nat) :
+    ((nonhumanMonth i x m).take 5).sum = feedTotal i x m / i.billionKcalsNeeded * 100 ∧
+    ((nonhumanMonth i x m).drop 5).sum = biofuelTotal i x m / i.billionKcalsNeeded * 100 :=
+  ⟨Proofs.Report.nonhuman_feed_sum i x m, Proofs.Report.nonhuman_biofuel_sum i x m⟩
+
+/-- the sugar and the SCP entries are distinguishable: at this point (SCP and sugar on, one unit of
+    SCP and no sugar fed) a call site with the two arguments exchanged reports something else —
+    the sums above cannot see such a swap, the entry-by-entry comparison of the check can -/
+theorem nonhuman_swap_counterexample :
+    ∃ (i : Inp ℚ) (x : Var → ℚ) (m : Nat), m < i.nmonths ∧ (∀ v, 0 ≤ x v) ∧
+      swapSugarScp (nonhumanMonth i x m) ≠ nonhumanMonth i x m :=
+  Proofs.Report.nonhuman_swap_counterexample
 
 end Allfed.C04
